@@ -74,7 +74,7 @@ func checkHandoffValues(p *core.Prog, r *core.Report) {
 	if stateReq == nil {
 		core.Undecide("computeLinearHandoffBlockNum: the `state required` condition (stateRequiredAt != nil && *stateRequiredAt <= startBlock) was not found")
 	}
-	core.Instrs(fn, func(in ssa.Instruction) {
+	core.InstrsDeep(fn, func(in ssa.Instruction) {
 		ifi, ok := in.(*ssa.If)
 		if !ok {
 			return
@@ -91,7 +91,7 @@ func checkHandoffValues(p *core.Prog, r *core.Report) {
 	})
 	// edges on which *stateRequiredAt > floor(startBlock)
 	var aboveFloorEdges []core.Edge
-	core.Instrs(fn, func(in ssa.Instruction) {
+	core.InstrsDeep(fn, func(in ssa.Instruction) {
 		ifi, ok := in.(*ssa.If)
 		if !ok {
 			return
